@@ -266,6 +266,7 @@ Frame(m, a, si, sm, sc, t) ==
 \* threads, one level less when there are several threads
 Bonus == CASE fam = FamDetour -> 1
            [] fam = FamPermCtx /\ Cardinality(Threads) > 1 -> -1
+           [] fam = FamKw /\ Cardinality(Threads) > 1 /\ MaxDepth > 2 -> 2 - MaxDepth   \* 22 arguments: the product with a second thread
            [] fam = FamGlobal /\ Cardinality(Threads) > 1 /\ MaxDepth > 2 -> 2 - MaxDepth   \* frames carry history (v0, g0)
            [] fam = FamTimeit /\ MaxDepth > 3 -> 3 - MaxDepth      \* the status tree is history: depth 3 at most
            [] OTHER -> 0
